@@ -304,6 +304,8 @@ def run(ctx):
     r4(ctx)
     r5(ctx)
     r6(ctx)
+    ctx.rule("R7", "every composite key of a rule file becomes the operator of that name (a `not:` is always an ops::Not node, whose sub-rule matches on a throw-away environment)")
+    r7(ctx)
 
 
 def r2(ctx):
@@ -629,6 +631,56 @@ def r5(ctx):
                        "on the bound arm `true` is produced only after next() was taken from the bound nodes and from the candidates" if not bad else
                        "on the bound arm the function answers true without having advanced both sequences (%s): a bound `$$$A` accepts candidates it was never compared with" % bad[:3],
                        where=mm.loc())
+
+
+def r7(ctx):
+    """`not` exposes no variables and lets no binding of its sub-rule influence the outcome because `ops::Not` matches its sub-rule on a
+    throw-away environment.  That only holds if the rule tree really contains a Not node wherever the rule file says `not:` (likewise
+    all/any/matches): the deserialiser of the composite keys pushes, for each key, the operator of that name on every path."""
+    prog = ctx.prog
+    f0 = ctx.anchor("R7", r"^ast_grep_config::rule::deserialze_composite_rule$")
+    if not f0:
+        return
+    f = prog.inlined(f0)
+    want = {"all": "All", "any": "Any", "not": "Not", "matches": "Matches"}
+    pushes = [c for c in f.calls if c.name == "push" and c.bb in f.live_blocks and len(c.args) == 2 and "Rule<" in f.locals[c.args[1][1][0]] if c.args[1][0] != "k"]
+    ctx.floor("R7", "rules pushed by deserialze_composite_rule", len(pushes), 4)
+    tests = {}
+    for bi in sorted(f.live_blocks):
+        si = f.switch_info(bi)
+        if not si or not si.get("enum") or not si["enum"].startswith("core::option::Option") or si["place"] is None:
+            continue
+        for o in f.trace_place(si["place"]):
+            if o.kind == "param" and o.ref == 1:
+                fl = [x for x in field_path(o.proj) if x in want]
+                if fl and "Some" in si["arms"]:
+                    tests.setdefault(fl[0], []).append((bi, si["arms"]["Some"], si["arms"].get("None")))
+    ctx.ob("R7", "deserialze_composite_rule/tests of the composite keys", set(tests) == set(want), "keys tested: %s" % sorted(tests), where=f0.loc())
+    first = {}
+    for key, l in tests.items():
+        doms = [t for t in l if not any(t2[0] != t[0] and f.dominates(t2[0], t[0]) for t2 in l)]
+        first[key] = doms[0]
+    for key, variant in sorted(want.items()):
+        if key not in first:
+            continue
+        bi, some, none = first[key]
+        stops = [t[0] for k2, t in first.items() if k2 != key] + ([none] if none is not None else [])
+        region = set(f.reachable_from(some, stop=stops)) - set(stops)
+        mine = [c for c in pushes if c.bb in region]
+        bad = []
+        for c in mine:
+            vs = set()
+            for o in f.trace_operand(c.args[1]):
+                if o.kind == "agg" and o.ref[2][1].get("variant"):
+                    vs.add(o.ref[2][1]["variant"])
+                else:
+                    vs.add("a %s that is not built here" % (o.kind if o.kind != "call" else "result of " + o.ref.name))
+            if vs != {variant}:
+                bad.append(sorted(vs))
+        ctx.ob("R7", "deserialze_composite_rule/`%s` builds Rule::%s" % (key, variant), bool(mine) and not bad,
+               "%d push(es), each of a Rule::%s built in this arm" % (len(mine), variant) if mine and not bad else
+               "the `%s` key does not always produce a Rule::%s node (%s): e.g. `not: {not: R}` rewritten to plain R lets R's bindings escape the negation — variables bound only under a "
+               "`not` appear in the match and constrain later occurrences" % (key, variant, bad or "no push found"), where=f0.loc())
 
 
 AGG_TY = re.compile(r"^&mut impl Aggregator<")
